@@ -32,19 +32,19 @@ type Rec struct {
 	// Idx is the position of the case in the (tier, seed)-determined list.
 	Idx int `json:"idx"`
 
-	Verdict    string                 `json:"verdict,omitempty"` // held | violated | inconclusive
-	NonTrivial bool                   `json:"nontrivial,omitempty"`
-	Path       string                 `json:"path,omitempty"` // path / shape signature of the case
+	Verdict    string `json:"verdict,omitempty"` // held | violated | inconclusive
+	NonTrivial bool   `json:"nontrivial,omitempty"`
+	Path       string `json:"path,omitempty"` // path / shape signature of the case
 	// A case may be a batch of evaluations (pure-function engines): Evals counts
 	// them and Paths lists the distinct non-trivial shape signatures seen in it.
-	Evals int      `json:"evals,omitempty"`
-	Paths []string `json:"paths,omitempty"`
-	Viols      []Viol                 `json:"viols,omitempty"`
-	Obs        map[string]int64       `json:"obs,omitempty"`    // counters observed by the monitors
-	Sample     map[string]interface{} `json:"sample,omitempty"` // the case written out
-	Why        string                 `json:"why,omitempty"`    // reason for inconclusive
-	Ms         int64                  `json:"ms,omitempty"`     // wall time of the case
-	Input      string                 `json:"input,omitempty"`  // hex input, written at start for decoder cases
+	Evals  int                    `json:"evals,omitempty"`
+	Paths  []string               `json:"paths,omitempty"`
+	Viols  []Viol                 `json:"viols,omitempty"`
+	Obs    map[string]int64       `json:"obs,omitempty"`    // counters observed by the monitors
+	Sample map[string]interface{} `json:"sample,omitempty"` // the case written out
+	Why    string                 `json:"why,omitempty"`    // reason for inconclusive
+	Ms     int64                  `json:"ms,omitempty"`     // wall time of the case
+	Input  string                 `json:"input,omitempty"`  // hex input, written at start for decoder cases
 
 	Cases int                    `json:"cases,omitempty"` // done: number of cases this shard ran
 	Extra map[string]interface{} `json:"extra,omitempty"`
